@@ -179,7 +179,8 @@ def uniform_faces(rng, cls, a, n):
 
 
 def gen_config(rng, cls, nmax=3, closed=False, allow_periodic=True, kinds=None, uniform_periodic=True,
-               uniform=False, nmin=1, nlim=None, faces_override=None, force_periodic=None, nmax3=None):
+               uniform=False, nmin=1, nlim=None, faces_override=None, force_periodic=None, nmax3=None,
+               periodic_flag=None):
     d = drive.dim(cls)
     cap = nmax if d < 3 else (nmax3 or min(nmax, 2 if not uniform else 3))
     if uniform:
@@ -260,7 +261,7 @@ def gen_config(rng, cls, nmax=3, closed=False, allow_periodic=True, kinds=None, 
             per = a in per_axes
         elif force_periodic is not None:
             per = a in force_periodic
-        flag = rng.choice(["lo", "hi", "both"]) if per else None
+        flag = (periodic_flag or rng.choice(["lo", "hi", "both"])) if per else None
         for s, high in ((lo, False), (hi, True)):
             shp = trans_shape(dims, a)
             kind = rng.choice(kinds or ["dirichlet", "neumann", "robin", "robin"])
@@ -428,10 +429,12 @@ def periodic_systematic_configs(closed=False, seed=0):
                     steps = [[Fr(1), Fr(2)], [Fr(2), Fr(1)]][k % 2]
                     k += 1
                 faces.append([lo, lo + steps[0], lo + steps[0] + steps[1]])
-            rng = _r.Random(hash((seed, cls, pa, str(closed))) & 0xffffffff)
-            cfg = gen_config(rng, cls, closed=closed, faces_override=faces, force_periodic={pa}, nmax=2)
-            cfg["systematic"] = "periodic"
-            out.append(cfg)
+            for flag in ("lo", "hi", "both"):      # the flag may sit on either side of the pair, or on both
+                rng = _r.Random(hash((seed, cls, pa, str(closed), flag)) & 0xffffffff)
+                cfg = gen_config(rng, cls, closed=closed, faces_override=faces, force_periodic={pa}, nmax=2,
+                                 periodic_flag=flag)
+                cfg["systematic"] = "periodic"
+                out.append(cfg)
     return out
 
 
